@@ -250,3 +250,19 @@ Theorem C12_source_obj_destroy_half_filled : forall k sx m h ob db ty filled nul
     callC prog_env f prog_sbdf_obj_destroy [VCell ob 0] m k sx h = ONormal fin /\ inb fin = m /\ Imp.lookup cells_var (vars fin) = Some (VHeap (kill ob (kill db h))).
 Proof. exact obj_destroy_partial_source. Qed.
 Print Assumptions C12_source_obj_destroy_half_filled.
+
+(* reading, then releasing, both from the source: whatever sbdf_obj_read_arr builds (any element type, any count, any stream
+   it accepts), one sbdf_obj_destroy on the result releases every block the read allocated and touches nothing else *)
+From Sbdf Require Import ImpFactsReadObj ImpFactsReadArr ImpFactsReadVa.
+Theorem C12_source_read_then_destroy : forall rf rp fo po v k sx h m, Forall byte sx ->
+  exists f0, forall f, (f0 <= f)%nat -> exists st fin,
+    execE prog_env f (fbody prog_sbdf_obj_read_arr) (ora (VPtr rf fo) v (VPtr rp po) VUndef VUndef VUndef VNull (VInt 0) k sx h m []) = OReturn (VInt st) fin /\
+    (st = SBDF_OK ->
+       Imp.lookup "*array" (vars fin) = Some (VCell (List.length h) 0) /\
+       exists k' s' h' nb f1, Imp.lookup fail_var (vars fin) = Some (VInt k') /\ Imp.lookup strm_var (vars fin) = Some (VBytes s') /\ Imp.lookup cells_var (vars fin) = Some (VHeap h') /\
+         (1 <= nb)%nat /\ List.length h' = (List.length h + nb)%nat /\
+         forall g, (f1 <= g)%nat -> exists fin2,
+           callC prog_env g prog_sbdf_obj_destroy [VCell (List.length h) 0] (inb fin) k' s' h' = ONormal fin2 /\
+           inb fin2 = inb fin /\ Imp.lookup cells_var (vars fin2) = Some (VHeap (h ++ nones nb))).
+Proof. exact obj_read_arr_then_destroy. Qed.
+Print Assumptions C12_source_read_then_destroy.
